@@ -196,7 +196,7 @@ def run(ctx):
                 tasks.append(dict(N=N, m=m, box=bx, a=a, b=min(n, a + step)))
     # a unit box at 1e10, integer-typed bounds, and the box whose cell centres are the integers (integer-typed queries)
     for (N, m) in curve.small_configs(8 if not th else 10):
-        for bx in ("B4", "Z", "E", "D", "S", "F", "T", "U", f"I:{m}", "B0c"):
+        for bx in ("B4", "Z", "Zh", "E", "D", "S", "F", "T", "U", f"I:{m}", "B0c"):
             tasks.append(dict(N=N, m=m, box=bx, a=0, b=2 ** (N * m)))
     # the same queries with the box configured through SetBounds (every ordered pair of boxes)
     for (N, m) in curve.small_configs(8 if not th else 10):
